@@ -160,7 +160,20 @@ fn translate_select_pipeline(
 
     // GROUP BY
     let aggregate = after_agg.pluck(|t| t.into_aggregate()).into_iter().next();
+    let is_aggregate = aggregate.is_some();
     let group_by: Vec<CId> = aggregate.map(|(part, _)| part).unwrap_or_default();
+
+    // An ungrouped aggregate yields exactly one row, also when none of its columns
+    // is used: the placeholder of an empty projection has to aggregate as well.
+    if is_aggregate && group_by.is_empty() && projection.len() == 1 {
+        if let SelectItem::UnnamedExpr(sql_ast::Expr::Value(ref v)) = projection[0] {
+            if matches!(v.value, sql_ast::Value::Null) {
+                projection[0] = SelectItem::UnnamedExpr(sql_ast::Expr::Value(
+                    sql_ast::Value::Placeholder("COUNT(*)".to_string()).into(),
+                ));
+            }
+        }
+    }
     ctx.query.allow_stars = ctx.dialect.stars_in_group();
     let group_by = sql_ast::GroupByExpr::Expressions(try_into_exprs(group_by, ctx, None)?, vec![]);
     ctx.query.allow_stars = true;
